@@ -316,6 +316,9 @@ def fresh_graph_threads(ctx, rng, factory, rounds, n_nodes):
         sys.setswitchinterval(old)
 
 
+BLOCKED = {'count': 0, 'limit': 3.0}
+
+
 def preemption_scan(ctx, rng, factory, edges, cap):
     """systematic single pre-emption: thread A starts the FIRST query on a fresh graph and is stopped after exactly k executed
     lines of library code (k = 1, 2, ... until A finishes without reaching k); thread B then runs its query to completion on the
@@ -343,7 +346,11 @@ def preemption_scan(ctx, rng, factory, edges, cap):
                 if state['lines'] == k:
                     state['reached'] = True
                     go_b.set()
-                    b_done.wait(10)
+                    if not b_done.wait(BLOCKED['limit']):
+                        # B is waiting for something the suspended A holds (a lock taken CORRECTLY is released as soon as A runs again - a real
+                        # scheduler would let A run): A goes on; not a finding, but every further point costs only a short wait
+                        BLOCKED['count'] += 1
+                        BLOCKED['limit'] = 0.25
             return tracer
 
         def work_a():
@@ -385,6 +392,8 @@ def preemption_scan(ctx, rng, factory, edges, cap):
         if not state['reached']:
             break
     ctx.count('preemption_points', k)
+    if BLOCKED['count']:
+        ctx.dist['preemption.points-where-the-second-thread-had-to-wait-for-the-suspended-one'] = BLOCKED['count']
 
 
 # ------------------------------------------------------------------ ontologies
@@ -527,7 +536,11 @@ def ontology_scenarios(ctx, rng, rounds, cap):
                 if state['lines'] == k:
                     state['reached'] = True
                     go_b.set()
-                    b_done.wait(10)
+                    if not b_done.wait(BLOCKED['limit']):
+                        # B is waiting for something the suspended A holds (a lock taken CORRECTLY is released as soon as A runs again - a real
+                        # scheduler would let A run): A goes on; not a finding, but every further point costs only a short wait
+                        BLOCKED['count'] += 1
+                        BLOCKED['limit'] = 0.25
             return tracer
 
         def work_a():
